@@ -1035,6 +1035,6 @@ func stepCKKS(c CKKSCase, sh *ckksShared, rec *h.Rec, second bool) error {
 	return nil
 }
 
-var propCKKS = h.NewProp("TestPropCKKSRoundTrip", h.Budget{Quick: 1500, Thorough: 20000}, genCKKS, runCKKS)
+var propCKKS = h.NewProp("TestPropCKKSRoundTrip", h.Budget{Quick: 1200, Thorough: 14000}, genCKKS, runCKKS)
 
 func TestPropCKKSRoundTrip(t *testing.T) { propCKKS.Check(t) }
